@@ -1,7 +1,7 @@
 // Harness for C05 (MID de-duplication): one scenario per input line, run on a real udp/client.Conn
 // over the in-memory session inside a testing/synctest bubble.
 //
-//	own <getmid> [<level>] | recv <con|non> <mid> <tokhex> <beh> | par <k> <con|non> <mid> <tokhex> <beh>
+//	own <getmid> [<level>] | recv <con|non> <mid> <tokhex> <beh>[.<code>] | par <k> <con|non> <mid> <tokhex> <beh>[.<code>]
 //	  | blk <con|non> <mid> <tokhex> <dur> <k> <con|non> | sleep <ns> | tick | flush | newconn
 //
 // level: how the connection under test comes into being —
@@ -17,7 +17,10 @@
 // beh: hjm / hjr = the handler hijacks its request and re-uses it under another message ID and type, then answers like pb /
 // releases it to the pool at once and answers like none;
 // pb (2.05 + payload = handler invocation number), pbe (4.04, no payload), none, sep (no
-// response through the writer; a NON response is sent by `flush`), empty (code 0.00).
+// response through the writer; a NON response is sent by `flush`), empty (code 0.00), rst (the handler sets type Reset), rstc (Reset
+// with code 4.04), ox / oc / oxc (like pb plus unknown elective / critical / both kinds of option numbers).  `.<code>`: the
+// request's code (default 1 = GET; 5 FETCH, 6 PATCH, 7 iPATCH, 8 and 31 unassigned).  Datagrams are decoded by the harness's own
+// parser (rawParse), not by the library's.
 // blk: the handler first writes a confirmable message of its own (blocks until it is acknowledged,
 // the reader loop is replaced) and then answers like pb; k copies arrive while it is blocked.
 // Output: one segment per op, `h=<invocation numbers> s=<datagrams written>` (both sorted).
@@ -72,9 +75,19 @@ func parseType(s string) message.Type {
 	return message.NonConfirmable
 }
 
-func buildReq(typ message.Type, mid int32, tok []byte, beh string) []byte {
+// splitBeh: a behaviour word may carry the request's code, `pb.5` = behaviour pb, request code 0.05 (FETCH); default GET.
+func splitBeh(b string) (string, codes.Code) {
+	if i := strings.IndexByte(b, '.'); i >= 0 {
+		c, _ := strconv.Atoi(b[i+1:])
+		return b[:i], codes.Code(c)
+	}
+	return b, codes.GET
+}
+
+func buildReq(typ message.Type, mid int32, tok []byte, behWord string) []byte {
+	beh, code := splitBeh(behWord)
 	m := pool.NewMessage(context.Background())
-	m.SetCode(codes.GET)
+	m.SetCode(code)
 	m.SetToken(tok)
 	m.SetType(typ)
 	m.SetMessageID(mid)
@@ -160,6 +173,20 @@ func (sc *scenario) handler(w *responsewriter.ResponseWriter[*udpclient.Conn], r
 		sc.mu.Unlock()
 	case "empty":
 		_ = w.SetResponse(codes.Empty, message.TextPlain, nil)
+	case "rst":
+		// the handler rejects the request: a bare Reset (code stays 0.00)
+		w.Message().SetType(message.Reset)
+	case "rstc":
+		// a Reset that carries a response code
+		_ = w.SetResponse(codes.NotFound, message.TextPlain, nil)
+		w.Message().SetType(message.Reset)
+	case "ox", "oc", "oxc":
+		// like pb, and the reply carries option numbers the library does not know: elective ones (even: Echo 252, Request-Tag 292
+		// twice - empty and long -, a vendor number with a 300 byte value) and / or critical ones (odd: 2049 twice, 65001)
+		_ = w.SetResponse(codes.Content, message.TextPlain, bytes.NewReader([]byte(strconv.Itoa(n))))
+		for _, o := range unknownOpts(strings.TrimPrefix(p, "/")) {
+			w.Message().AddOptionBytes(message.OptionID(o.id), o.val)
+		}
 	case "blk":
 		cc := w.Conn()
 		m := cc.AcquireMessage(cc.Context())
@@ -173,13 +200,100 @@ func (sc *scenario) handler(w *responsewriter.ResponseWriter[*udpclient.Conn], r
 	}
 }
 
-func fmtOpts(opts message.Options) string {
+type rawOpt struct {
+	id  int
+	val []byte
+}
+
+func seqBytes(n int, start byte) []byte {
+	b := make([]byte, n)
+	for i := range b {
+		b[i] = start + byte(i)
+	}
+	return b
+}
+
+// unknownOpts: the options (in the order of their numbers) the handler kinds ox / oc / oxc add to their reply.
+func unknownOpts(kind string) []rawOpt {
+	el := []rawOpt{{252, seqBytes(8, 0x10)}, {292, nil}, {292, seqBytes(20, 0x40)}, {65000, seqBytes(300, 0)}}
+	cr := []rawOpt{{2049, []byte("ab")}, {2049, nil}, {65001, seqBytes(14, 0x70)}}
+	switch kind {
+	case "ox":
+		return el
+	case "oc":
+		return cr
+	}
+	return []rawOpt{el[0], el[1], el[2], cr[0], cr[1], el[3], cr[2]}
+}
+
+// rawParse decodes a CoAP datagram without the library's decoder (which is part of what is under test: the reply to a
+// duplicate is re-decoded from the response cache): header, token, every option as it is on the wire, payload.
+func rawParse(d []byte) (typ message.Type, code int, mid int, tok []byte, opts []rawOpt, pay []byte, ok bool) {
+	if len(d) < 4 || d[0]>>6 != 1 {
+		return
+	}
+	typ = message.Type((d[0] >> 4) & 3)
+	tkl := int(d[0] & 0xf)
+	code = int(d[1])
+	mid = int(d[2])<<8 | int(d[3])
+	if tkl > 8 || len(d) < 4+tkl {
+		return
+	}
+	tok = d[4 : 4+tkl]
+	i := 4 + tkl
+	id := 0
+	ext := func(v int) (int, bool) {
+		switch v {
+		case 13:
+			if i >= len(d) {
+				return 0, false
+			}
+			i++
+			return int(d[i-1]) + 13, true
+		case 14:
+			if i+1 >= len(d) {
+				return 0, false
+			}
+			i += 2
+			return (int(d[i-2])<<8 | int(d[i-1])) + 269, true
+		case 15:
+			return 0, false
+		}
+		return v, true
+	}
+	for i < len(d) {
+		if d[i] == 0xff {
+			pay = d[i+1:]
+			if len(pay) == 0 {
+				return
+			}
+			break
+		}
+		b := d[i]
+		i++
+		delta, ok1 := ext(int(b >> 4))
+		if !ok1 {
+			return
+		}
+		ln, ok2 := ext(int(b & 0xf))
+		if !ok2 || i+ln > len(d) {
+			return
+		}
+		id += delta
+		opts = append(opts, rawOpt{id, d[i : i+ln]})
+		i += ln
+	}
+	ok = true
+	return
+}
+
+func fmtRawOpts(opts []rawOpt) string {
 	if len(opts) == 0 {
 		return "-"
 	}
 	parts := make([]string, len(opts))
 	for i, o := range opts {
-		parts[i] = fmt.Sprintf("%d=%s", o.ID, lp.Hex(o.Value))
+		parts[i] = fmt.Sprintf("%d=%s", o.id, lp.Hex(o.val))
 	}
 	return strings.Join(parts, "+")
 }
@@ -201,13 +315,12 @@ func (sc *scenario) observe() string {
 	}
 	var ds []string
 	for _, d := range sc.lk.takeSent() {
-		m := pool.NewMessage(context.Background())
-		if _, err := m.UnmarshalWithDecoder(udpcoder.DefaultCoder, d); err != nil {
+		typ, code, mid, tok, opts, body, ok := rawParse(d)
+		if !ok {
 			ds = append(ds, "undecodable")
 			continue
 		}
-		body, _ := m.ReadBody()
-		ds = append(ds, fmt.Sprintf("%s:%d:%d:%s:%s:%s", typeName(m.Type()), m.Code(), m.MessageID(), lp.Hex(m.Token()), fmtOpts(m.Options()), lp.Hex(body)))
+		ds = append(ds, fmt.Sprintf("%s:%d:%d:%s:%s:%s", typeName(typ), code, mid, lp.Hex(tok), fmtRawOpts(opts), lp.Hex(body)))
 	}
 	sort.Strings(ds)
 	ss := "-"
@@ -468,6 +581,7 @@ func TestC05(t *testing.T) {
 			}
 		}()
 		fmt.Fprintln(w, runScenario(t, strings.Join(f, " ")))
+		_ = w.Flush() // a fatal error of the library (e.g. an unlock of an unlocked mutex) in a later line must not take this output with it
 	})
 	if err != nil {
 		t.Fatal(err)
